@@ -60,6 +60,9 @@ func tmTables(args []string) error {
 	}
 	withMin := len(args) > 1 && args[1] == "min"
 	for id, rel := range shippedGrammars {
+		if os.Getenv("VERIF_SKIP_JS") == "1" && strings.Contains(rel, "/js/") {
+			continue
+		}
 		path := filepath.Join(repoDir(), rel)
 		b, err := os.ReadFile(path)
 		if err != nil {
@@ -76,6 +79,13 @@ func tmTables(args []string) error {
 		c.NS = len(g.Syms)
 		c.normalize()
 		c.Rules, c.Inputs = []jsRule{}, []jsInput{}
+		for _, r := range g.Parser.Rules {
+			ty := r.Type
+			c.Rules = append(c.Rules, jsRule{LHS: int(r.LHS), RHS: []int{}, Action: r.Action, Type: &ty, Flags: append([]string{}, r.Flags...)})
+		}
+		for _, in := range g.Parser.Inputs {
+			c.Inputs = append(c.Inputs, jsInput{NT: g.Parser.NumTerminals + in.Nonterm, Eoi: !in.NoEoi})
+		}
 		c.T = dumpTables(g.Parser.Tables, nil)
 		c.Compiles = []jsCompile{}
 		if g.Parser.Tables.UsedLADepth > 0 {
